@@ -36,7 +36,7 @@ PRODUCERS = ["inline", "inline_angle", "image", "image_angle", "autolink", "ref_
 
 
 def floors(tier):
-    f = {"urls.token": 50000, "urls.html": 20000, "literal_twins_compared": 20000, "method_composition": 20000, "scheme_spellings_distinct": 500, "autolink.email": 2000, "long_destinations": 1000}
+    f = {"urls.token": 50000, "urls.html": 20000, "literal_twins_compared": 20000, "method_composition": 20000, "scheme_spellings_distinct": 500, "autolink.email": 2000, "long_destinations": 1000, "duplicate.cases": 1500}
     for p in PRODUCERS:
         f["emitted." + p] = 200
         f["rejected." + p] = 200 if not p.startswith("linkify") else 50
@@ -190,6 +190,49 @@ def template_case(ctx, prod, tmpl, dest, conf):
         ctx.violation(f"{key}:{prod}", f"{msg} | src={src!r} conf={conf}", case)
 
 
+# (document with the accepted definition first, the same document with it last: in the second one the rejected definition's label is
+# still fresh when the block parser meets it; inline content is resolved after all blocks, so both must render alike)
+DUP_TEMPLATES = [("[{L}]: /ok\n\n[{L}]: {d}\n\n[t][{L}]", "[{L}]: {d}\n\n[{L}]: /ok\n\n[t][{L}]"),
+                 ("[{L}]: /ok 'ti'\n[{l}]: {d}\n[{L}]: {d} \"t2\"\n\n![i][{L}]", "[{l}]: {d}\n[{L}]: {d} \"t2\"\n[{L}]: /ok 'ti'\n\n![i][{L}]"),
+                 ("> [{L}]: /ok\n>\n> [{l}]: <{d}>\n\n[{L}]", "> [{l}]: <{d}>\n>\n> [{L}]: /ok\n\n[{L}]"),
+                 ("[{L}]: /ok\n\n- [{l}]:\n  {d}\n\n[{L}]", "- [{l}]:\n  {d}\n\n[{L}]: /ok\n\n[{L}]")]
+
+
+def duplicate_case(ctx, tmpl_pair, dest, conf):
+    """a rejected destination in a definition whose label is ALREADY defined is left as literal text exactly like one with a fresh label"""
+    case = {"kind": "duplicate", "templates": list(tmpl_pair), "dest": dest, "conf": conf}
+    ctx.current = case
+    ctx.count("evaluations")
+    md = W.get_md(conf)
+    outs = []
+    for t in tmpl_pair:
+        src = t.replace("{L}", "Foo Bar").replace("{l}", "foo  bar").replace("{M}", "other").replace("{d}", dest) + "\n"
+        env = {}
+        try:
+            toks = md.parse(src, env)
+            outs.append((md.renderer.render(toks, md.options, env), src, toks))
+        except Exception:
+            ctx.count("skipped.exception")
+            return
+    errs, nurl = observe_tokens(ctx, outs[0][2])
+    # the rejected definition must not have been recorded in either document
+    if any("ok" not in str(t.attrs.get("href", t.attrs.get("src", "ok"))) for t in walk(outs[0][2]) if t.type in ("link_open", "image")):
+        ctx.count("duplicate.bad_dest_accepted")   # judged by observe_tokens above
+    # only destinations that the fresh-label document shows to be rejected (there the last paragraph resolves to /ok); an accepted
+    # destination legitimately makes the order of the definitions matter
+    urls2 = [str(t.attrs.get("href", t.attrs.get("src"))) for t in walk(outs[1][2]) if t.type in ("link_open", "image")]
+    if not urls2 or any(u != "/ok" for u in urls2):
+        ctx.count("duplicate.dest_accepted_skipped")
+        return
+    ctx.count("duplicate.cases")
+    if outs[0][0] != outs[1][0] and not any(ch in dest for ch in "[]<>"):
+        errs.append(("rejected-not-literal", f"a rejected definition of an already defined label renders {outs[0][0]!r}, with a fresh label {outs[1][0]!r}"))
+    ctx.nontrivial("dup", tmpl_pair[0], dest, C.conf_id(conf))
+    for key in sorted({k for k, _ in errs}):
+        msg = next(m for k, m in errs if k == key)
+        ctx.violation(f"{key}:ref_duplicate", f"{msg} | src={outs[0][1]!r} conf={conf}", case)
+
+
 def doc_case(ctx, conf, src):
     case = {"kind": "doc", "conf": conf, "src": src}
     ctx.current = case
@@ -240,6 +283,8 @@ def replay(ctx, case):
         template_case(ctx, case["producer"], case["template"], case["dest"], case["conf"])
     elif case["kind"] == "doc":
         doc_case(ctx, case["conf"], case["src"])
+    elif case["kind"] == "duplicate":
+        duplicate_case(ctx, tuple(case["templates"]), case["dest"], case["conf"])
     else:
         method_case(ctx, case["u"])
 
@@ -276,6 +321,8 @@ def run(ctx):
         tmpl = rng.choice(TEMPLATES[prod])
         ctx.sample({"producer": prod, "src": tmpl.replace("{d}", d), "conf": conf}, every=4999)
         template_case(ctx, prod, tmpl, d, conf)
+    for _ in range(ctx.scale(14000, 300000)):
+        duplicate_case(ctx, rng.choice(DUP_TEMPLATES), bad_dest(rng) if rng.random() < 0.8 else rng.choice(["/fine", "data:image/png;base64,xx", "http://a.b/c"]), rng.choice(BASES))
     ctx.counters["scheme_spellings_distinct"] += len(spellings)
     # corpus + random documents
     sec = [t for nme, t in gen.corpus() if nme.startswith(("xss.md", "proto.md", "punycode.md", "linkify.md", "normalize.md"))]
